@@ -158,7 +158,7 @@ def minimise(engine, plan, signature: str, budget_s: float = 60.0, max_candidate
 
 
 def write_replay(engine, tier, verif_seed, vio, plan, res, minimised_from, tried) -> str:
-    d = os.path.join(VERIF, "replays")
+    d = os.environ.get("MYSTSIM_REPLAY_DIR") or os.path.join(VERIF, "replays")
     os.makedirs(d, exist_ok=True)
     v0 = res["violations"][0]
     doc = {
